@@ -515,3 +515,17 @@ V("c16-isclique-upper-raw", "C16", "fire", UT, "    subgraph = skeleton(subgraph
   "    no_edges = np.sum(np.triu(subgraph, k=1) != 0)\n    n = len(S)\n    return no_edges == n * (n - 1) / 2", rule="PW.count", what="only upper-triangle entries counted: edges from a higher to a lower index are missed")
 V("c16-silent-isclique-half", "C16", "silent", UT, "    no_edges = np.sum(subgraph != 0)\n    n = len(S)\n    return no_edges == n * (n - 1)",
   "    no_edges = np.sum(np.triu(subgraph, k=1) != 0)\n    n = len(S)\n    return no_edges == n * (n - 1) / 2", what="counting each unordered pair once on the (symmetric) skeleton")
+
+# ------------------------------------------------------------------------------- helper extraction (must be silent)
+V("c01-silent-helper-inplace", "C01", "silent", LG, "            means[targets] = noise_interventions[:, 1]\n            variances[targets] = noise_interventions[:, 2]\n",
+  "            _replace(means, variances, targets, noise_interventions)\n",
+  more=[(LG, "def _parse_interventions(interventions_dict):", "def _replace(means, variances, targets, parsed):\n    means[targets] = parsed[:, 1]\n    variances[targets] = parsed[:, 2]\n\n\ndef _parse_interventions(interventions_dict):")],
+  what="in-place update of the working arrays moved into a private helper")
+V("c14-silent-helper-inplace", "C14", "silent", LG, "            means[targets] = noise_interventions[:, 1]\n            variances[targets] = noise_interventions[:, 2]\n",
+  "            _replace(means, variances, targets, noise_interventions)\n",
+  more=[(LG, "def _parse_interventions(interventions_dict):", "def _replace(means, variances, targets, parsed):\n    means[targets] = parsed[:, 1]\n    variances[targets] = parsed[:, 2]\n\n\ndef _parse_interventions(interventions_dict):")],
+  what="a private helper that writes its (fresh) arguments is not a violation")
+V("c17-silent-helper-size", "C17", "silent", UT, "                fold_size = round(n * ratio)\n", "                fold_size = _fold_size(n, ratio)\n",
+  more=[(UT, "def split_data(data, ratios, random_state=42):", "def _fold_size(n, ratio):\n    return round(n * ratio)\n\n\ndef split_data(data, ratios, random_state=42):")], what="fold size computed by a private helper")
+V("c02-silent-helper-noise", "C02", "silent", AN, "                    noise = self.noise_distributions[i](n) + shift_interventions[i](n)\n", "                    noise = _shifted(self.noise_distributions[i], shift_interventions[i], n)\n",
+  more=[(AN, "class ANM:", "def _shifted(original, shift, n):\n    return original(n) + shift(n)\n\n\nclass ANM:")], what="shifted noise drawn by a private helper")
